@@ -430,8 +430,8 @@ def reduceFamily : List (String × Tmpl) :=
               ifs skip (bin ">=" (v 4) (p 5)) s[set (v 4) lit0, asg e[v 3] "+=" e[bin "*" (bin "-" (p 3) lit1) (p 5)]] s[],
               incdec (v 3) "++"]]]⟩) ]
 
-/-- argmax / argmin: first unmasked element initialises; floats return early on NaN or on the
-infinity of the searched direction -/
+/-- argmax / argmin: floats return at the first (unmasked) NaN or infinity of the searched direction;
+otherwise the first unmasked element initialises -/
 def argFamily (op tok : String) (infSign : Expr) : List (String × Tmpl) :=
   let k (masked : Bool) : Tmpl := fun c =>
     if !c.isOrd then none else
@@ -443,10 +443,10 @@ def argFamily (op tok : String) (infSign : Expr) : List (String × Tmpl) :=
       s[var e[v 0] boolT e[], var e[v 1] T e[], var e[v 2] intT e[],
         range (v 3) .absent ":=" (p 0)
           ((if masked then s[ifs skip (idx (p 1) (v 3)) s[cont] s[]] else s[]) ++
-           s[asg e[v 4] ":=" e[idx (p 0) (v 3)],
-             ifs skip (un "!" (v 0)) s[set (v 1) (v 4), set (v 2) (v 3), set (v 0) (ident "true"), cont] s[]] ++
+           s[asg e[v 4] ":=" e[idx (p 0) (v 3)]] ++
            early ++
-           s[ifs skip (bin tok (v 4) (v 1)) s[set (v 2) (v 3), set (v 1) (v 4)] s[]]),
+           s[ifs skip (un "!" (v 0)) s[set (v 1) (v 4), set (v 2) (v 3), set (v 0) (ident "true"), cont] s[],
+             ifs skip (bin tok (v 4) (v 1)) s[set (v 2) (v 3), set (v 1) (v 4)] s[]]),
         ret e[v 2]]⟩
   [ (op, k false), (op ++ "Masked", k true) ]
 
